@@ -3,7 +3,7 @@
 The real planner + physical optimiser build plans for TLC-generated queries (spec/gen/PlanGen.tla) and a corpus of
 shapes (windows, monotonic projections, unions of sorted inputs, ordered aggregation, ...) under several session
 configurations (1/3/4 target partitions, hash vs sort-merge joins, partitioned joins forced, sorted MemTables declared
-with_sort_order, repartition switches, Utf8View).  Every node of every plan is wrapped in a transparent observer
+with_sort_order, Parquet listing tables with a declared file sort order, repartition switches, Utf8View).  Every node of every plan is wrapped in a transparent observer
 (harness/vcontract); the declared facts are read before execution, the emitted batches are projected on the declared
 expressions, and TLC validates each event log against spec/contract/OperatorContract.tla (sortedness under each
 declared ordering with the specification's own comparator, class members equal row by row, constants constant within
@@ -13,13 +13,21 @@ import json
 from common import *
 import contract, sqlcases
 
-QUICK_CFG = ["A1", "B4", "P4", "M4", "S3"]
-ALL_CFG = list(contract.CONFIGS)
+QUICK_CFG = ["A1", "B4", "P4", "M4", "S3", "Q4"]
+ALL_CFG = ["A1", "B4", "P4", "M4", "S3", "R2", "V4", "Q4"]
 
 
 def known_key(run, node, k):
     """Narrow keys of genuine engine defects (known_findings.json); anything else raises."""
     _, p, f, idx = k
+    o = contract.origin(run, node, "C28", ("ordering", "outord", "const", "equiv"))
+    d = o.get("detail", "")
+    if (o["name"] == "DataSourceExec" and "file_groups=" in d and "predicate=" in d and "file_type=parquet" in d
+            and not any(kv[0] == "datafusion.execution.parquet.pushdown_filters" and kv[1] == "true"
+                        for kv in contract.CONFIGS[run["cfg"]].get("settings", []))
+            and (o["consts"] or any(len(c) > 1 for c in o["classes"]))):
+        # the scan declares what its predicate implies although the predicate only prunes row groups / pages
+        return "file-scan-declares-equivalences-of-a-pruning-only-predicate"
     if f in ("ordering", "outord"):
         o = contract.origin(run, node, "C28", ("ordering", "outord"))
         kids = contract.children(run, o)
@@ -66,7 +74,7 @@ def run(ctx):
                                             "samples": [{"sql": line["sql"]}], **res})
         return
     cfgs = QUICK_CFG if ctx.quick else ALL_CFG
-    lines, meta, tlcruns = contract.build_runs(ctx, n_tlc=60 if ctx.quick else 500, n_big=2 if ctx.quick else 8, configs=cfgs, corpus=1 if ctx.quick else 4,
+    lines, meta, tlcruns = contract.build_runs(ctx, n_tlc=50 if ctx.quick else 500, n_big=2 if ctx.quick else 8, configs=cfgs, corpus=1 if ctx.quick else 4,
                                                gens=None if ctx.quick else [(2, 2, ctx.seed), (3, 1, ctx.seed + 1000), (4, 1, ctx.seed + 2000), (1, 3, ctx.seed + 3000)])
     runs, summary = contract.record(ctx, lines)
     res = contract.judge(ctx, "C28", runs, meta, known_key=known_key)
